@@ -372,13 +372,15 @@ def align(inp, out, lines):
                     group, rule = (p, p + 2), "eliminate_drop"
         elif name == "DropN":
             if src[0] == "Drop":
-                gs = p
-                while gs > 0 and inp[gs - 1][0] == "Drop":
-                    gs -= 1
-                ge = p
-                while ge + 1 < n and inp[ge + 1][0] == "Drop":
-                    ge += 1
-                group, rule = (gs, ge), "drop"
+                # a DropN stands for the o[1] consecutive Drops that start at its line (a run longer than
+                # 255 is split over several DropN, each carrying the line of its own first Drop)
+                k = max(1, o[1])
+                for gs in range(max(pos, p - k + 1), p + 1):
+                    ge = gs + k - 1
+                    if ge < n and all(inp[q][0] == "Drop" for q in range(gs, ge + 1)) and \
+                            all(removable[q] is not None for q in range(pos, gs)):
+                        group, rule = (gs, ge), "drop"
+                        break
         elif name == "Invoke":
             for gs in (p, p - 1, p - 2):
                 if gs >= 0 and gs + 2 < n and inp[gs] == ("GetPropByName", o[1], 0) and \
